@@ -15,6 +15,7 @@ bodies, call f, map with f, redefine, read), every call with budgets K-1, K, K+1
 import itertools
 
 import sys
+import threading
 
 from ..core import runner, snapshot, opwrap
 from ..model import refparse, refeval as M
@@ -320,10 +321,141 @@ def run_hist_call(res, hist, budgets):
     return outs
 
 
+# ------------------------------------------------------------------ two threads (all interleavings at host-callback granularity)
+
+THREAD_PROGRAMS = [
+    # (program, budget) ; y() is a host callback = the only scheduling point (one thread runs at a time, baton passing)
+    ('f = v => v + 1; y(); r = map(l, f) | len; y(); f(r)', 10 ** 6),
+    ('g = v => v * 2; y(); map(l, g) | len', 30),            # needs ~65 operations: must end in the ops-limit error under every schedule
+    ('h = v => t(v); y(); h(1); y(); h(2); y(); h(3)', 10 ** 6),
+    ('q = v => t(v) + t(v); y(); map(l, q) | len', 25),
+]
+
+
+class ThreadWatch:
+    """Tracer for the two-thread runs: per thread, the VM state of its eval and the nodes evaluated under a different one."""
+
+    def __init__(self):
+        self.state = {}
+        self.entered = {}
+        self.foreign = {}
+
+    def enter(self, node, state):
+        tid = threading.get_ident()
+        self.entered[tid] = self.entered.get(tid, 0) + 1
+        if tid not in self.state:
+            self.state[tid] = state
+        elif self.state[tid] is not state:
+            self.foreign[tid] = self.foreign.get(tid, 0) + 1
+
+    def leave(self, node, value):
+        pass
+
+    def fail(self, node, exc):
+        pass
+
+
+def run_threads(progs, schedule):
+    """Run progs (one per thread, own parser and names each) under `schedule` (sequence of thread indices: who runs the next
+    segment). Returns per thread (outcome, value, entered, foreign, log)."""
+    api = snapshot.api()
+    n = len(progs)
+    go = [threading.Semaphore(0) for _ in range(n)]
+    back = threading.Semaphore(0)
+    done = [False] * n
+    out = [None] * n
+    logs = [[] for _ in range(n)]
+    tids = [None] * n
+    watch = ThreadWatch()
+
+    def body(i):
+        go[i].acquire()
+        tids[i] = threading.get_ident()
+        text, budget = progs[i]
+        D = api.Decimal
+
+        def y():
+            back.release()
+            go[i].acquire()
+            return D(0)
+
+        def t(v):
+            logs[i].append(int(v))
+            return v
+        names = {'l': [D(k) for k in range(20)], 'y': y, 't': t}
+        try:
+            v = api.new_parser().eval(text, names, max_ops_evaluated=budget)
+            out[i] = ('ok', _plain(v))
+        except api.OpsLimit:
+            out[i] = ('limit', None)
+        except Exception as e:  # noqa
+            out[i] = ('err:' + type(e).__name__, None)
+        done[i] = True
+        back.release()
+
+    ths = [threading.Thread(target=body, args=(i,), daemon=True) for i in range(n)]
+    for th in ths:
+        th.start()
+    opwrap.Hub.cb = watch
+    try:
+        sched = list(schedule)
+        while not all(done):
+            i = sched.pop(0) if sched else next(k for k in range(n) if not done[k])
+            if done[i]:
+                continue
+            go[i].release()
+            if not back.acquire(timeout=20):
+                out[i] = ('hang', None)
+                break
+    finally:
+        opwrap.Hub.cb = None
+    return [(out[i][0] if out[i] else 'hang', out[i][1] if out[i] else None, watch.entered.get(tids[i], 0), watch.foreign.get(tids[i], 0), logs[i])
+            for i in range(n)]
+
+
+def interleavings(counts):
+    """All sequences containing index i exactly counts[i] times."""
+    if not any(counts):
+        yield ()
+        return
+    for i, c in enumerate(counts):
+        if c:
+            rest = list(counts)
+            rest[i] -= 1
+            for tail in interleavings(rest):
+                yield (i,) + tail
+
+
+def thread_check(res):
+    pairs = [(0, 1), (2, 3), (0, 3), (1, 3), (1, 1)]
+    for a, b in pairs:
+        progs = [THREAD_PROGRAMS[a], THREAD_PROGRAMS[b]]
+        alone = [run_threads([p], [0] * 10)[0] for p in progs]
+        segs = [p[0].count('y()') + 1 for p in progs]
+        for sched in interleavings(segs):
+            got = run_threads(progs, sched)
+            res.count('thread_schedules')
+            for i in (0, 1):
+                o, v, entered, foreign, log = got[i]
+                w = {'programs': [p[0] for p in progs], 'budgets': [p[1] for p in progs], 'schedule': list(sched), 'thread': i}
+                if foreign:
+                    res.violation('threads:foreign-vm-state', 'with two threads evaluating, node evaluations of one call were charged to the VM '
+                                  'state of the call made by the other thread', dict(w, expected='own VM state', observed=f'{foreign} node evaluations'))
+                    return
+                if (o, v, entered, log) != (alone[i][0], alone[i][1], alone[i][2], alone[i][4]):
+                    res.violation('threads:outcome-depends-on-other-thread', 'an eval call interleaved with a call on another thread (own parser, own '
+                                  'names) behaves differently than alone', dict(w, expected=repr(alone[i][:3]), observed=repr(got[i][:3])))
+                    return
+            res.outcome('threads:%s/%s' % (got[0][0], got[1][0]))
+
+
 def work(task):
     res = runner.Result()
     opwrap.install()
     sys.setrecursionlimit(6000)          # recursion 130 deep under the tracer
+    if task[0] == 'threads':
+        thread_check(res)
+        return res
     kind = task[0]
     if kind == 'driver':
         _, label, text, spec, sw = task
@@ -387,6 +519,7 @@ def main(tier, seed, t0):
         hists += [list(h) for h in itertools.product(HIST_CALLS, repeat=n)]
     step = max(1, len(hists) // 48)
     tasks += [('hist', hists[i:i + step]) for i in range(0, len(hists), step)]
+    tasks.append(('threads',))
     tasks = runner.rotate(tasks, seed)
     total = runner.run_tasks(work, tasks)
     n = total.n
@@ -399,8 +532,10 @@ def main(tier, seed, t0):
         'rule': '%d hand-written drivers, each on a parser without and with a parse cache (direct / recursive / map / filter / reduce / sorted-key / host callback / swallowing callback / '
                 'ast_names lambdas / NoOp / statements / slices / lazy operators) and every construct shape of C09 (%s fillers), each under '
                 'EVERY budget 1..K+2 plus two large ones; all %d sequences of <= %d eval calls over a shared names mapping from a %d-call '
-                'alphabet, the last call under budgets K-1, K, K+1, K/2. distinct_nontrivial = distinct (program, K).'
-                % (len(DRIVERS), b['SHAPES'], len(hists), b['HIST'], len(HIST_CALLS)),
+                'alphabet, the last call under budgets K-1, K, K+1, K/2; two threads, each evaluating on its own parser and names: all %d '
+                'interleavings of 5 program pairs at host-callback granularity (baton passing), each call compared with its stand-alone run '
+                'and every node evaluation required to use the VM state of its own thread\'s call. distinct_nontrivial = distinct (program, K).'
+                % (len(DRIVERS), b['SHAPES'], len(hists), b['HIST'], len(HIST_CALLS), n.get('thread_schedules', 0)),
         'exhaustive': True,
         'bounds': b,
     }
@@ -413,7 +548,17 @@ def main(tier, seed, t0):
 def replay(w):
     res = runner.Result()
     opwrap.install()
+    if 'schedule' in w:
+        progs = list(zip(w['programs'], w['budgets']))
+        got = run_threads(progs, w['schedule'])
+        alone = [run_threads([p], [0] * 10)[0] for p in progs]
+        bad = any(g[3] for g in got) or any((g[0], g[1], g[2], g[4]) != (a[0], a[1], a[2], a[4]) for g, a in zip(got, alone))
+        return ('REPRODUCED' if bad else 'HOLDS') + f"\n schedule={w['schedule']} -> {[g[:4] for g in got]!r}\n alone -> {[a[:4] for a in alone]!r}"
     if 'history' in w:
+        if w.get('budget_of_last_call') is None and w.get('expected') == 'ok':
+            base = run_hist_call(res, w['history'], [None] * len(w['history']))
+            bad = any(o[2] or o[3] for o in base)
+            return ('REPRODUCED' if bad else 'HOLDS') + f"\n history={w['history']} -> {base!r}"
         outs = run_hist_call(res, w['history'], [None] * (len(w['history']) - 1) + [w['budget_of_last_call']])
         bad = outs[-1][0] != w['expected']
         return ('REPRODUCED' if bad else 'HOLDS') + f"\n history={w['history']} budget={w['budget_of_last_call']} -> {outs!r}"
